@@ -445,6 +445,26 @@ def crashed(r):
 PANIC_RE = re.compile(r"panicked at ([^\n]*)")
 
 
+def diagnostic_layouts(rng, n):
+    """Inputs for the TEXT renderer of diagnostics (garden check / run / reftest-ast print the offending line, carets and
+    neighbouring lines): an error or warning at a random column, with non-ASCII text of random width before it on the
+    line, on the line before and on the line after (character count, byte length and display width all differ)."""
+    wide = ["é", "я", "€", "語", "\U0001F600", "ß", "\u0301a"]
+    errs = ["let x = nosuch%d + 1", "let y: Int = \"s%d\"", "let z%d = 1 +", "foo(%d, )(", "let unused%d = 1", "if %d { 1 } else { \"a\" }",
+            "match Some(%d) { Some(v) => v }", "println(%d + \"a\")", "\"unterminated %d"]
+    out = []
+    for i in range(n):
+        def pad(k):
+            return "".join(rng.choice(wide) for _ in range(k))
+        col = rng.randrange(0, 40)
+        lead = rng.choice(["", "    ", "let p%d = \"%s\" " % (i, pad(rng.randrange(1, 12)))])
+        line = " " * col + lead + (rng.choice(errs) % i)
+        before = rng.choice(["", "// " + pad(rng.randrange(0, 30)), "let b%d = \"%s\"" % (i, pad(rng.randrange(0, 20)))])
+        after = rng.choice(["", "// " + pad(rng.randrange(0, 40)), "let a%d = \"%s\"" % (i, pad(rng.randrange(0, 25))), pad(rng.randrange(1, 30))])
+        out.append("\n".join((before, line, after)) + rng.choice(["", "\n"]))
+    return out
+
+
 def cli_crash(exe, src, cmds=("check", "format", "reftest-ast", "run"), timeout=20):
     """Run the CLI front-end commands on src (written to a temp file). -> (cmd, location) of the first crash or None."""
     d = tempfile.mkdtemp(dir=oracle.scratch_dir())
@@ -582,6 +602,7 @@ def run(ctx):
     for k in sorted(by_kind):
         pool = by_kind[k]
         sample += pool if len(pool) <= per else rng.sample(pool, per)
+    sample += diagnostic_layouts(rng, 400 if ctx.thorough else 90)
     ctx.log("running garden check/format/reftest-ast/run on %d sources" % len(sample))
     import concurrent.futures
     with concurrent.futures.ThreadPoolExecutor(common.NCPU) as ex:
